@@ -13,7 +13,7 @@ V = r"[A-Za-z_][A-Za-z0-9_]*"   # a user variable (rows do not depend on how loc
 ROWS = [
     (r"^main$", r"^unwrap\(init\(with_level\(new\(\)\)\)\)$",
      "logger initialisation at start-up, before any input is read; fails only if a global logger was already set", None, 1),
-    (r"^setup_context$", r"^unwrap\(to_str\(%s\)\)$" % V,
+    (r"^setup_context(::\{closure#\d+\})?$", r"^unwrap\(to_str\(%s\)\)$" % V,
      "the value is the parent of a Path built from a Rust String (valid UTF-8), so to_str() is Some", "path_from_string", 1),
     (r"NextReferenceIdProcessor as .*::map::\{closure#0\}$", r"^Add\(%s,1\):usize$" % V,
      "usize counter bounded by the number of entries in one file", None, 1),
@@ -21,15 +21,15 @@ ROWS = [
      "usize sum of per-file entry counts, bounded by the input size", None, 1),
     (r"CountMissingReferenceIdProcessor as .*::map::\{closure#0\}$", r"^Add\(%s,1\):u32$" % V,
      "u32 count of missing references in one file: overflow needs > 4294967295 statements (> 20 GB) in a single file — not an input of ordinary shape", None, 1),
-    (r"(NextReferenceIdProcessor|InsertReferencesProcessor) as .*::reduce::\{closure#\d+\}$", r"^Add\(%s,%s\.(1|num_inserted_references)\):usize$" % (V, V),
+    (r"(NextReferenceIdProcessor|InsertReferencesProcessor) as .*::reduce::\{closure#\d+\}$", r"^Add\(%s,%s\.(1|num_inserted_references)\):(usize|u64)$" % (V, V),
      "the same usize sums written as iter().fold(0, |t, r| t + r.f): bounded by the number of entries", None, 2),
     (r"CountMissingReferenceIdProcessor as .*::reduce::\{closure#\d+\}$", r"^Add\(%s,%s\):u32$" % (V, V),
      "the same u32 sum written as iter().fold(0, |t, r| t + *r): overflow needs > 4294967295 unreferenced statements — not an input of ordinary shape", None, 1),
     (r"CountMissingReferenceIdProcessor as .*::reduce$", r"^Add\(%s,%s\):u32$" % (V, V),
      "u32 sum of per-file counts: overflow needs > 4294967295 unreferenced statements in the tree — not an input of ordinary shape", None, 1),
-    (r"InsertReferencesProcessor as .*::map::\{closure#0\}$", r"^Add\(%s,1\):usize$" % V,
+    (r"InsertReferencesProcessor as .*::map::\{closure#0\}$", r"^Add\(%s,1\):(usize|u64)$" % V,
      "usize counter bounded by the number of entries in the file", None, 1),
-    (r"InsertReferencesProcessor as .*::reduce$", r"^Add\(%s,%s\.num_inserted_references\):usize$" % (V, V),
+    (r"InsertReferencesProcessor as .*::reduce$", r"^Add\(%s,%s\.num_inserted_references\):(usize|u64)$" % (V, V),
      "usize sum bounded by the number of entries in the tree", None, 1),
     (r"InsertReferencesProcessor as .*::map::\{closure#0\}$", r"^Add\((?P<c>%s),Sub\((?P<a>%s),(?P=c)\)\.0\):usize$" % (V, V),
      "cursor + (pos - cursor) = pos, a byte offset into the file", None, 1),
@@ -51,9 +51,9 @@ ROWS = [
      "span start + 1 where the span begins with the 1-byte `(`: <= len", None, 1),
     (r"rust_log_ref_finder::find$", r"^Add\(line_col\(start_pos\(%s\)\)\.1,1\):usize$" % V,
      "column + 1, bounded by the line length", None, 1),
-    (r"rust_log_ref_finder::find::\{closure#0\}$", r"^Add\(%s,2\):usize$" % V,
+    (r"rust_log_ref_finder::find::\{closure#\d+\}$", r"^Add\(%s,2\):usize$" % V,
      "the argument is rfind(\"::\") of the name: + 2 <= len", "rfind_closure", 1),
-    (r"rust_log_ref_finder::find::\{closure#0\}$", r"^index\[RangeFrom<usize\]\(%s,RangeFrom\{Add\(%s,2\)\.0\}\)$" % (V, V),
+    (r"rust_log_ref_finder::find::\{closure#\d+\}$", r"^index\[RangeFrom<usize\]\(%s,RangeFrom\{Add\(%s,2\)\.0\}\)$" % (V, V),
      "offset of the end of an ASCII match inside the string: a char boundary <= len", "rfind_closure", 1),
 ]
 
@@ -133,11 +133,16 @@ def guard_check(facts, s, row):
                 return True, why + "; %s = len()" % c
         return False, "%s is not len() of the contents" % c
     if g == "path_from_string":
-        for c in b.calls_to(r"^std::path::Path::new$"):
-            ch, root = call_chain(b, c.args[0])
-            if root == ("param", 1) and b.local_ty(1).endswith("String"):
-                return True, "Path::new(&String)"
-        return False, "the path is no longer built from a String argument"
+        owner = b
+        while owner is not None and owner.kind not in ("Fn", "AssocFn"):
+            owner = facts.body(owner.parent) if owner.parent else None
+        if owner is None:
+            return False, "no enclosing function"
+        for c in owner.calls_to(r"^std::path::Path::new$"):
+            ch, root = call_chain(owner, c.args[0])
+            if root[0] == "param" and owner.local_ty(root[1]) in ("&std::string::String", "&str", "std::string::String"):
+                return True, "Path::new(<%s argument>)" % owner.local_ty(root[1])
+        return False, "the path is no longer built from a string argument"
     if g == "directive_callers":
         f = facts.one(r"rust_log_ref_finder::find$")
         if f is None:
